@@ -417,6 +417,26 @@ def rule_r4(repo, run):
                       "with flattened namespaces generics of different namespaces, or of a namespace and the "
                       "library, are merged into one interface" % key, wf.loc(r), sample=dict(key=key, path=conds))
     dg = wf.func("Wrapf.dump_generic_interfaces")
+    promo = pat.find(dg, """
+for MV_N in generics:
+    if MV_N.cpp_if != iface_cpp_if:
+        iface_cpp_if = None
+        break
+""")
+    run.check(R, "wrapf.Wrapf.dump_generic_interfaces:cpp_if-promotion", len(promo) == 1,
+              "a conditional-compilation guard is only moved around the whole generic interface when *every* specific "
+              "carries exactly that guard (loop over all of `generics`, plain inequality test): otherwise unconditional "
+              "specifics vanish from the generic when the macro is undefined", wf.loc(dg))
+    # the Python dispatcher of an overload set is named without any per-variant suffix
+    wpm = repo.module("wrapp")
+    md = wpm.func("Wrapp.multi_dispatch")
+    for fld in SUFFIX_FIELDS:
+        reset = pat.has(md, "fmt.%s = ''" % fld) or any(
+            isinstance(c, ast.Call) and (pyflow.call_name(c) or "").endswith("Scope") and
+            any(k.arg == fld and pyflow.const_str(k.value) == "" for k in c.keywords) for c in ast.walk(md))
+        run.check(R, "wrapp.Wrapp.multi_dispatch:reset %s" % fld, reset,
+                  "the dispatcher's format scope inherits %s from the first overload: the dispatcher gets the name of that "
+                  "variant (duplicate definition, and it calls itself)" % fld, wpm.loc(md))
     s = wf.seg(dg)
     run.check(R, "wrapf.Wrapf.dump_generic_interfaces:specifics",
               s.count('"module procedure " + node.fmtdict.F_name_impl') == 3 and "sorted(f_function_generic.keys())" in s,
